@@ -1724,28 +1724,27 @@ class sptensor:
             shapeArray = np.array(self.shape)
             if not np.array_equal(factor.shape, shapeArray[dims]):
                 assert False, "Size mismatch in scale"
-            return ttb.sptensor(
-                self.subs,
-                self.vals * factor[self.subs[:, dims]][:, None],
-                self.shape,
-            )
+            return self._scaled(self.vals * factor[self.subs[:, dims]][:, None])
         if isinstance(factor, ttb.sptensor):
             shapeArray = np.array(self.shape)
             if not np.array_equal(factor.shape, shapeArray[dims]):
                 assert False, "Size mismatch in scale"
-            return ttb.sptensor(
-                self.subs, self.vals * factor[self.subs[:, dims]], self.shape
-            )
+            return self._scaled(self.vals * factor[self.subs[:, dims]])
         if isinstance(factor, np.ndarray):
             shapeArray = np.array(self.shape)
             if factor.shape[0] != shapeArray[dims]:
                 assert False, "Size mismatch in scale"
-            return ttb.sptensor(
-                self.subs,
-                self.vals * factor[self.subs[:, dims].transpose()[0]][:, None],
-                self.shape,
+            return self._scaled(
+                self.vals * factor[self.subs[:, dims].transpose()[0]][:, None]
             )
         assert False, "Invalid scaling factor"
+
+    def _scaled(self, vals: np.ndarray) -> sptensor:
+        """Build the result of scale: entries scaled to zero are not stored."""
+        keep = np.asarray(vals != 0).reshape(-1)
+        if keep.all():
+            return ttb.sptensor(self.subs, vals, self.shape)
+        return ttb.sptensor(self.subs[keep, :], vals[keep, :], self.shape)
 
     def spmatrix(self) -> sparse.coo_matrix:
         """Convert 2-way :class:`pyttb.sptensor` to :class:`scipy.sparse.coo_matrix`.
